@@ -1,0 +1,17 @@
+//go:build verif
+
+// Write-ordering contracts for crash durability (property C03); only compiled with -tags verif.
+// `order L: A before B` is checked at the typestate level (control flow only): every execution of event B is preceded,
+// on every path, by an execution of event A that returned a nil error.
+package tbtree
+
+// Index flush: the commit-log entry describing a flushed root is appended only after the node and history logs are
+// flushed; whenever the commit log is fsynced the node and history logs were fsynced before; node-log data is
+// discarded only after the commit log referencing the new minimum offset is fsynced.
+//@ func (*TBtree).flushTree
+//@   order hlog_flushed_before_clog_append: t.hLog.Flush before t.cLog.Append
+//@   order nlog_flushed_before_clog_append: t.nLog.Flush before t.cLog.Append
+//@   order hlog_synced_before_clog_sync: t.hLog.Sync before t.cLog.Sync
+//@   order nlog_synced_before_clog_sync: t.nLog.Sync before t.cLog.Sync
+//@   order clog_flushed_before_sync: t.cLog.Flush before t.cLog.Sync
+//@   order clog_synced_before_discard: t.cLog.Sync before t.nLog.DiscardUpto
